@@ -96,6 +96,7 @@ func search(seed uint64, n int, t tools) {
 		}
 	}
 	searchRest(seed, n, t, &evals, outcomes)
+	searchInterleavedMux(seed, n, &evals, outcomes)
 	keys := make([]string, 0, len(outcomes))
 	for k := range outcomes {
 		keys = append(keys, k)
@@ -129,6 +130,11 @@ func runWitness(w string, t tools, evals *int, verbose bool) {
 			os.Exit(2)
 		}
 		fmt.Fprintf(out, "OUTCOME\t%s\n", runSegCase(c, t, evals, verbose))
+	case strings.HasPrefix(w, "imux|"):
+		if !runWitnessImux(w, evals) {
+			fmt.Fprintln(os.Stderr, "bad witness")
+			os.Exit(2)
+		}
 	case strings.HasPrefix(w, "seginit|") || strings.HasPrefix(w, "combx|"):
 		if !runWitnessInit(w, t, evals) {
 			fmt.Fprintln(os.Stderr, "bad witness")
